@@ -29,6 +29,12 @@ SHAPES = {
     "merge": ("SELECT ts, v FROM s ORDER BY ts ASC NULLS LAST", MP, [["datafusion.execution.target_partitions", "2"]]),
     "shj": (f"SELECT l.ts AS a, r.ts AS b FROM l JOIN r ON l.k = r.k AND l.ts > r.ts - {WIN} AND l.ts < r.ts + {WIN}", TWO, []),
     "shj_nofilter": ("SELECT l.ts AS a, r.ts AS b FROM l JOIN r ON l.k = r.k", TWO, []),
+    "agg2": ("SELECT ts, k, count(*) AS n, sum(v) AS sv FROM s GROUP BY ts, k", ONE, []),
+    "wpart": ("SELECT ts, k, v, sum(v) OVER (PARTITION BY k ORDER BY ts ASC NULLS LAST ROWS BETWEEN 1 PRECEDING AND CURRENT ROW) AS sw FROM s", ONE, []),
+    "filter_limit": (f"SELECT ts, v + 1 AS w FROM s WHERE v >= 0 LIMIT {LIMITN}", ONE, []),
+    "shj_left": (f"SELECT l.ts AS a, r.ts AS b FROM l LEFT JOIN r ON l.k = r.k AND l.ts > r.ts - {WIN} AND l.ts < r.ts + {WIN}", TWO, []),
+    "shj_right": (f"SELECT l.ts AS a, r.ts AS b FROM l RIGHT JOIN r ON l.k = r.k AND l.ts > r.ts - {WIN} AND l.ts < r.ts + {WIN}", TWO, []),
+    "shj_full": (f"SELECT l.ts AS a, r.ts AS b FROM l FULL JOIN r ON l.k = r.k AND l.ts > r.ts - {WIN} AND l.ts < r.ts + {WIN}", TWO, []),
     # pipeline breakers: only answerable at end of input
     "rej_group": ("SELECT v, count(*) AS n FROM s GROUP BY v", ONE, []),
     "rej_sort": ("SELECT ts, v FROM s ORDER BY v", ONE, []),
@@ -39,7 +45,9 @@ SHAPES = {
     "rej_topk": ("SELECT ts, v FROM s ORDER BY v LIMIT 3", ONE, []),
     "rej_agg_join": ("SELECT l.k, count(*) AS n FROM l JOIN r ON l.k = r.k GROUP BY l.k", TWO, []),
 }
-ACCEPTED = {"filter", "limit", "agg", "window", "union", "merge", "shj", "shj_nofilter"}
+ACCEPTED = {"filter", "limit", "agg", "agg2", "window", "wpart", "union", "merge", "shj", "shj_nofilter", "shj_left", "shj_right", "shj_full",
+            "filter_limit"}
+OUTER = {"shj_left", "shj_right", "shj_full"}
 
 
 def gen_feed(rng, shape, nev):
@@ -53,7 +61,7 @@ def gen_feed(rng, shape, nev):
         src, part = slots[e % len(slots)] if (shape.startswith("shj") or rng.random() < 0.7) else rng.choice(slots)
         rows = []
         for _ in range(rng.randint(1, 4)):
-            ts += (rng.choice([0, 0, 1, 2]) if shape == "agg" else rng.randint(1, 2))
+            ts += (rng.choice([0, 0, 1, 2]) if shape in ("agg", "agg2") else rng.randint(1, 2))
             k = N if rng.random() < 0.1 else I(rng.choice([0, 1]))
             v = N if rng.random() < 0.15 else I(rng.choice([-1, 0, 1, 2]))
             rows.append([I(ts), k, v])
@@ -99,6 +107,30 @@ def sem(shape, feed, k):
         m = min(s0[-1][0]["v"], s01[-1][0]["v"])
         merged = sorted(proj(s0 + s01), key=lambda r: r[0]["v"])
         return True, [r for r in merged if r[0]["v"] <= m], [r for r in merged if r[0]["v"] < m]
+    if shape == "agg2":
+        if not s0:
+            return False, [], []
+        mx = s0[-1][0]["v"]
+        keys = []
+        for r in s0:
+            if (r[0]["v"], json.dumps(r[1])) not in [(a["v"], json.dumps(b)) for a, b in keys]:
+                keys.append((r[0], r[1]))
+        o = [[a, b, I(sum(1 for r in s0 if r[0] == a and r[1] == b)), sum_or_null([r[2] for r in s0 if r[0] == a and r[1] == b])]
+             for a, b in keys if a["v"] < mx]
+        return False, o, o
+    if shape == "wpart":
+        o = []
+        for i, r in enumerate(s0):
+            prev = [x for x in s0[:i] if x[1] == r[1]]
+            o.append([r[0], r[1], r[2], sum_or_null(([prev[-1][2]] if prev else []) + [r[2]])])
+        return False, o, o
+    if shape == "filter_limit":
+        o = [[r[0], I(r[2]["v"] + 1)] for r in s0 if r[2]["k"] != "n" and r[2]["v"] >= 0][:LIMITN]
+        return True, o, o
+    if shape in OUTER:
+        o = [[a[0], b[0]] for a in s0 for b in s1
+             if a[1]["k"] != "n" and b[1]["k"] != "n" and a[1]["v"] == b[1]["v"] and a[0]["v"] > b[0]["v"] - WIN and a[0]["v"] < b[0]["v"] + WIN]
+        return False, o, o
     if shape in ("shj", "shj_nofilter"):
         o = [[a[0], b[0]] for a in s0 for b in s1
              if a[1]["k"] != "n" and b[1]["k"] != "n" and a[1]["v"] == b[1]["v"]
@@ -126,7 +158,20 @@ def direct_bad(run, feed):
         out = [[{"k": v["k"], "v": v["v"]} for v in row] for row in pt["out"]]
         if pt["err"]:
             bad.append({"n": li, "p": 0, "f": "error", "k": 0})
-        if ordered:
+        if run["shape"] in OUTER:
+            n = len(feed)
+            _, call, _ = sem(run["shape"], feed, n)
+            allL, allR = fed_to(feed, n, 0, 0), fed_to(feed, n, 1, 0)
+            pairs = [r for r in out if r[0]["k"] != "n" and r[1]["k"] != "n"]
+            padded = [r for r in out if r[0]["k"] == "n" or r[1]["k"] == "n"]
+            safe = contract_sub_bag(pairs, correct)
+            for r in padded:
+                if r[1]["k"] == "n":
+                    safe = safe and run["shape"] in ("shj_left", "shj_full") and any(x[0] == r[0] for x in allL) and not any(c[0] == r[0] for c in call)
+                else:
+                    safe = safe and run["shape"] in ("shj_right", "shj_full") and any(x[0] == r[1] for x in allR) and not any(c[1] == r[1] for c in call)
+            out = pairs
+        elif ordered:
             safe = out == correct[:len(out)]
         else:
             safe = contract_sub_bag(out, correct)
@@ -135,7 +180,7 @@ def direct_bad(run, feed):
         _, _, det_lag = sem(run["shape"], feed, lag_prefix(feed, pt["fed"]))
         if len(out) + SLACK < len(det_lag):
             bad.append({"n": li, "p": 0, "f": "liveness", "k": 0})
-        endok = (pt["ended"] == (len(out) == LIMITN)) if run["shape"] == "limit" else not pt["ended"]
+        endok = (pt["ended"] == (len(out) == LIMITN)) if run["shape"] in ("limit", "filter_limit") else not pt["ended"]
         if not endok:
             bad.append({"n": li, "p": 0, "f": "end", "k": 0})
     return bad
@@ -210,9 +255,8 @@ def run(ctx):
             if len(det) > SLACK + 2 and len(last["out"]) >= 2:
                 m = json.loads(json.dumps(lg)); m["id"] = "MUT:stalled:" + lg["id"]
                 for p in m["points"]:
-                    p["out"] = [] if lg["shape"] != "limit" else p["out"]
-                    p["ended"] = False if lg["shape"] != "limit" else p["ended"]
-                if lg["shape"] != "limit":
+                    p["out"] = [] if lg["shape"] not in ("limit", "filter_limit") else p["out"]
+                if lg["shape"] not in ("limit", "filter_limit"):
                     muts.append((m, "liveness"))
                 m = json.loads(json.dumps(lg)); m["id"] = "MUT:wrong-value:" + lg["id"]
                 m["points"][-1]["out"][0][-1] = {"k": "i", "v": 99}
@@ -243,7 +287,7 @@ def run(ctx):
             st["points"] += len(r["points"])
             st["max_determined"] = max(st["max_determined"], len(det))
             st["max_emitted"] = max(st["max_emitted"], len(r["points"][-1]["out"]))
-    weak = [s for s, st in stats.items() if st["max_determined"] <= SLACK + 2 and s != "limit"]
+    weak = [s for s, st in stats.items() if st["max_determined"] <= SLACK + 2 and s not in ("limit", "filter_limit")]
     if weak and not ctx.replay:
         raise ToolError(f"vacuity: shapes whose runs never determine more than SLACK rows: {weak}")
     rejected = {r["shape"]: (not r["planned"]) for r in runs if r["shape"] not in ACCEPTED}
